@@ -74,6 +74,18 @@ where
                         own(env, x, raw);
                     }
                 }
+                SOp::GetPast => {
+                    // a position that was already yielded: the element at that position cannot be delivered again,
+                    // and nothing else may be delivered under that index
+                    let d: usize = env.handed.iter().map(|x| *x as usize).sum();
+                    if d > 0 {
+                        if let Some(x) = subj(|| AtomicIter::get(itr, d - 1)) {
+                            let s = x.seen();
+                            env.fail(&["C02", "C14"], "stale-get", format!("get({}) for an already yielded position delivered an element (key {})", d - 1, s.key));
+                            drop(x);
+                        }
+                    }
+                }
                 SOp::FetchOne => {
                     if let Some(x) = subj(|| itr.fetch_one()) {
                         own(env, x.value, raw);
